@@ -544,7 +544,17 @@ pub fn check_case(ctx: &mut Ctx, case: &Case, cfg: &Cfg, props: &[String], want_
                 let kept = if open { out.ends_with(&text[s..e]) } else { out.contains(&text[s..e]) };
                 if !kept {
                     let is_asm = case.label.starts_with("asm#");
-                    let site = if is_asm && text[s..e].to_ascii_lowercase().contains("{$if") { " [site: conditional directive inside an asm instruction line]" } else { "" };
+                    // the instruction is split only when the line begins or ends with the conditional directive (F16); with
+                    // more of the instruction behind the closing directive the line is kept
+                    let cond = |w: &str| { let w = w.to_ascii_lowercase(); w.starts_with("{$if") || w.starts_with("{$else") || w.starts_with("{$end") };
+                    let edge_directive = text[s..e].lines().any(|l| {
+                        let t = l.trim();
+                        let has = t.to_ascii_lowercase().contains("{$if");
+                        let ends = t.ends_with('}') && t.rfind('{').is_some_and(|p| cond(&t[p..]));
+                        let begins = cond(t);
+                        has && (ends || begins) && t.len() > t.rfind('{').map(|p| t.len() - p).unwrap_or(0)
+                    });
+                    let site = if is_asm && edge_directive { " [site: conditional directive at the edge of an asm instruction line]" } else { "" };
                     res.viols.push(Viol { prop: "C07", clause: "region_verbatim", detail: format!("region {:?} is not reproduced byte for byte{site}", &text[s..e]) });
                 }
             }
